@@ -226,6 +226,32 @@ def isolation(F, rep):
         rr = readers.get(f_, [])
         rep.ob("ISOLATION", "%s|single-namespace" % f_, rr == [("[]", "namespace")],
                "%s reads exactly the namespace selected by its namespace id (%s)" % (f_, rr))
+    # a member of a namespace comes from that namespace or from nowhere: once `a` in `a.b` names a namespace, the arm looks
+    # `b` up there only - falling back to the ordinary lookup binds `config.retries` to the accessing file's own `retries`
+    asg0 = F.fn(R + "assignable")
+    n_ns = 0
+    for mm in nodes(fn_body(asg0), "Match"):
+        scr = peel(mm["scrut"])
+        if not (scr.get("k") == "MethodCall" and callee(scr) == R + "namespace_list"):
+            continue
+        for a2 in mm["arms"]:
+            if not any((pat_variant(x) or "").endswith("Option::Some") for x in pat_alternatives(a2["pat"])):
+                continue
+            n_ns += 1
+            ns_h = {b["hid"] for b in pat_bindings(a2["pat"])}
+            other = []
+            for c in nodes(a2["body"], "MethodCall"):
+                cal = callee(c) or ""
+                if cal in (R + "lookup", R + "lookup_global", R + "find_similar_name") :
+                    if cal == R + "lookup" or not (c["args"] and peel(c["args"][0]).get("hid") in ns_h):
+                        other.append(c)
+            rep.ob("ISOLATION", "assignable|namespace-member-from-that-namespace-only", not other,
+                   "`ns.name`: the name is looked up in the namespace `ns` only" if not other else
+                   "`ns.name` with a namespace `ns`: besides the namespace the arm also calls %s - a member the module does not have is "
+                   "silently taken from the scope of the accessing file (`config.retries` binds to main's own `retries`)" % (
+                       ", ".join(sorted({last(callee(c)) for c in other}))), line_of(other[0]) if other else line_of(a2))
+    if not n_ns:
+        rep.anchor_missing("match on namespace_list(..) in Resolver::assignable")
     # lookup passes the identifier's own file
     lk = F.fn(R + "lookup")
     args = [pp(peel(c["args"][0])) for c in nodes(fn_body(lk), "MethodCall") if callee(c) == R + "lookup_global"]
@@ -285,6 +311,28 @@ def import_names(F, rep):
                                     sides = [{x["hid"] for x in nodes(g[k], "Path") if x.get("res") == "Local"} for k in ("l", "r")]
                                     if (sides[0] & bound and sides[1] & inserted) or (sides[1] & bound and sides[0] & inserted):
                                         compares = g.get("op") == "Ne"
+                # .. and nothing is tolerated before that comparison: an Occupied arm in front of it that is silent lets an import
+                # disappear behind whatever holds the name (the file's own global, say) - the split program is accepted where the
+                # unsplit one has two definitions of one name
+                early = []
+                for mm in nodes(arm["body"], "Match"):
+                    if not any((pat_variant(x) or "").endswith("Entry::Vacant") for a2 in mm["arms"] for x in pat_alternatives(a2["pat"])):
+                        continue
+                    seen_compare = False
+                    for a2 in mm["arms"]:
+                        if not any((pat_variant(x) or "").endswith("Entry::Occupied") for x in pat_alternatives(a2["pat"])):
+                            continue
+                        is_cmp = a2.get("guard") is not None and any(g.get("op") in ("Ne", "Eq") for g in nodes(a2["guard"], "Binary")) and \
+                            any(c["m"] == "push" and "errs" in pp(c["recv"]) for c in nodes(a2["body"], "MethodCall"))
+                        if is_cmp:
+                            seen_compare = True
+                        elif not seen_compare:
+                            early.append(a2)
+                rep.ob("COLLISION", "%s|nothing-tolerated-before-the-comparison" % v, not early,
+                       "%s: every occupied name goes through the comparison of the two entries" % v if not early else
+                       "%s: an occupied name is tolerated by an arm in front of the comparison (`%s`): `from geometry use scale` next to an own "
+                       "`scale :: 2` silently drops the import" % (v, pp(early[0].get("guard"))[:80] if early[0].get("guard") else "no guard"),
+                       line_of(early[0]) if early else line_of(arm))
                 rep.ob("COLLISION", "%s|occupied" % v, occ, "%s: a different entry already under that name is reported as a collision" % v, line_of(arm))
                 rep.ob("COLLISION", "%s|compares-entries" % v, compares,
                        "%s: whether an occupied name is a collision is decided by comparing the existing entry with the entry being "
